@@ -469,25 +469,34 @@ func (r *c03Run) aftermath(label, where, stateDir string) {
 		}
 		r.rt.Fatalf("%s", r.rec.Violation(sig, "history {%s}, crash state %s, then write+snapshot+restart: %s failed: %v; crash state: %s", r.history, label, stage, err, vcrash.Listing(stateDir)))
 	}
-	node, err := c03Start(r.dir, false)
+	// Write + snapshot run in a child process: rqlite terminates the process
+	// (log.Fatal) when finalising an incremental snapshot fails, which must be
+	// reported as a failure of the recovered node, not take the check down.
+	killed, exit, out, err := vcrash.RunChild("TestVerif_C03_AfterChild", r.dir)
 	if err != nil {
-		fail("start", err)
+		r.rec.Label("inconclusive:aftermath-child")
 		return
 	}
-	if err := node.exec(c03AfterStmts); err != nil {
-		node.stop()
-		fail("write", err)
+	if killed || exit != 0 {
+		tail := string(out)
+		if i := strings.Index(tail, "AFTERMATH-ERROR"); i >= 0 {
+			tail = tail[i:]
+		}
+		if len(tail) > 1200 {
+			tail = tail[len(tail)-1200:]
+		}
+		if strings.Contains(tail, "AFTERMATH-INFRA") {
+			r.rec.Label("inconclusive:aftermath-child-infra")
+			return
+		}
+		stage := "process-exit"
+		if strings.Contains(tail, "AFTERMATH-ERROR") {
+			stage = "write-or-snapshot"
+		}
+		fail(stage, fmt.Errorf("child exit %d (killed=%v): %s", exit, killed, strings.TrimSpace(tail)))
 		return
 	}
-	if err := node.snapshot(0); err != nil {
-		node.stop()
-		fail("snapshot", err)
-		return
-	}
-	if err := node.stop(); err != nil {
-		fail("close", fmt.Errorf("%w: %v", errC03Infra, err))
-		return
-	}
+	node := &c03Node{s: New(&Config{DBConf: NewDBConfig(), Dir: r.dir, ID: c03NodeID, Logger: log.New(io.Discard, "", 0)}, nil)}
 	m, err := vsql.OpenMem()
 	if err != nil {
 		return
@@ -522,6 +531,31 @@ func (r *c03Run) aftermath(label, where, stateDir string) {
 			r.rt.Fatalf("%s", r.rec.Violation(sig, "history {%s}, crash state %s, then write+snapshot+close+restart (%s, via %s): database differs from acknowledged statements; crash state: %s\n--- want\n%s--- got\n%s",
 				r.history, label, mode, res.path, vcrash.Listing(stateDir), c03Short(want), c03Short(res.dump)))
 		}
+	}
+}
+
+// TestVerif_C03_AfterChild is the child side of aftermath: start on the
+// directory, one acknowledged write, a snapshot, clean close.
+func TestVerif_C03_AfterChild(t *testing.T) {
+	dir, ok := vcrash.IsChild()
+	if !ok {
+		t.Skip("helper for TestVerif_C03_Crash")
+	}
+	node, err := c03Start(dir, false)
+	if err != nil {
+		if errors.Is(err, errC03Infra) {
+			t.Fatalf("AFTERMATH-INFRA start: %v", err)
+		}
+		t.Fatalf("AFTERMATH-ERROR start: %v", err)
+	}
+	if err := node.exec(c03AfterStmts); err != nil {
+		t.Fatalf("AFTERMATH-ERROR write: %v", err)
+	}
+	if err := node.snapshot(0); err != nil {
+		t.Fatalf("AFTERMATH-ERROR snapshot: %v", err)
+	}
+	if err := node.stop(); err != nil {
+		t.Fatalf("AFTERMATH-INFRA close: %v", err)
 	}
 }
 
